@@ -107,6 +107,11 @@ def run(ctx):
                 ctx.violation(RC, k + "|undeferred-cycle", "the cycle source created by create_source is returned without passing through defer_tick: a tick cycle could be closed within the same tick",
                               b.loc(bb))
 
+    if ctx.tier == "thorough":
+        # independent cross-check of the solver by the real type checker: compile-fail witnesses with compiling twins
+        import witness
+        witness.check(ctx, "C30")
+
 
 def _copy_of(b, local, target, depth=0):
     if local == target:
